@@ -22,6 +22,7 @@ import (
 func init() {
 	register(&Prop{ID: "C09", Run: runC09, Replay: map[string]func(*mc.Ctx, json.RawMessage){
 		"history": replayer(c09EvalHistory),
+		"pair":    replayer(c09EvalPair),
 		"murmur":  replayer(c09EvalMurmur),
 		"sizing":  replayer(c09EvalSizing),
 	}})
@@ -698,6 +699,7 @@ func runC09(c *mc.Ctx) {
 			c09EvalHistory(w, hs[i])
 		})
 	}
+	runC09Pairs(c)
 	// (2) all histories over the 12-op menu
 	menu := []string{"add:5", "add:0", "add:33h", "addhash", "addop:oM", "m:5", "m:7h", "mop:oM", "reload", "unload", "isloaded", "msg"}
 	depth := mc.Pick(c, 4, 5)
